@@ -149,7 +149,9 @@ def check_into_field(rep, mod, tag, sig, scalar):
             W.bounds['X'] = (-INF, INF)
             W.vals[(src, 0)] = mpzmodel.AZ(Poly.var('X'), -INF, INF)
             return [Ptr(res, 0), Ptr(src, 0)], res
-        return [Ptr(res, 0), Ptr(src, 0), 10], res
+        # the radix is any of 2..36 (a symbol with that range)
+        W.bounds['RDX'] = (2, 36)
+        return [Ptr(res, 0), Ptr(src, 0), Poly.var('RDX')], res
     try:
         leaves = explore_mpz(mod, name, build)
     except (Incomplete, IRError) as e:
